@@ -20,7 +20,8 @@ CLAIM = dict(
           'dot(weights, fp); the extension helpers continue each end with the slope of the cell at that same end; (4) coordinates per regridding direction (σ·pₛ against pressure centers, '
           'p/pₛ against σ centers, hybrid a/pₛ + b centers, surface pressure as the zero of orography·g − geopotential); vmap axes never map the shared coordinate vector; (5) the bilinear '
           'regridder interpolates latitude then longitude with (target, source) roles in both calls, the nearest-neighbour regridder indexes the raveled source with indices built from '
-          '(source, target). Also decided: the end-cell extension is decided in an array-ends domain (first / last two elements of an array built from y by concatenate / diff / slicing), whatever helper structure implements it. Does not decide exactness on affine data, node reproduction, boundedness or agreement of the two platform paths at ties.'),
+          '(source, target). Also decided: the end-cell extension is decided in an array-ends domain (first / last two elements of an array built from y by concatenate / diff / slicing), whatever helper structure implements it. Does not decide exactness on affine data, node reproduction, boundedness or agreement of the two platform paths at ties.'
+          ' Later additions: C17.5 interpolation nodes are increasing (monotonicity domain); the leaf filter of interp_pressure_to_sigma tests the level axis −3.'),
     note='jnp.interp / searchsorted / pad / dot semantics are trusted; the accelerator path is analysed exactly like the default path (it cannot be executed here at all).',
     technique='resolved-callee mode table + keyword constants + normal forms of the weight expressions + argument-role matching',
 )
